@@ -523,7 +523,7 @@ theorem BooleanImage_from_vector_eq (x : Img) (v : Vec) (c : Bool) (hx : PlainBo
   simp only at h1 h2; subst h1; subst h2
   by_cases hl : v.length = prod sh <;> by_cases h : l = [] <;>
     simp [Src.BooleanImage_from_vector, Src.Image_shape, booleanFromVector, Np.reshapeShape, Np.mkBoolean, Img.nPix, hl,
-      has_landmarks_image_eq, h]
+      has_landmarks_image_eq, Src.copy_landmarks_and_path, h]
 
 /-! ### masked images -/
 
